@@ -72,7 +72,7 @@ Proof.
   destruct (acase_loop e l _ true (aget_cases l) l []) as [[l1 ins1]|] eqn:E; cbn [bind] in H; [|discriminate].
   apply acase_loop_sigl in E.
   destruct (aget_cases l) as [|c0 cs]; [injection H as <-; exact E|].
-  destruct (next_by_from [] [(T_Keyword, Some [s_END])] TNone 0 l) as [[eidx et]|]; [|discriminate].
+  destruct (next_by_from [] [(T_Keyword, Some [s_END])] TNone 0 l) as [[eidx et]|]; [|injection H as <-; exact E].
   injection H as <-. rewrite sigl_insert_at; [exact E | reflexivity].
 Qed.
 
@@ -241,11 +241,9 @@ Proof.
                 (fold_left Z.max (map (fun c : case_t => cond_width l (fst c)) (aget_cases l)) 0%Z)
                 (aget_cases l) true l []) as H.
   destruct (acase_loop e l _ true (aget_cases l) l []) as [[l1 ins1]|x]; cbn [rspec bind] in *.
-  - rewrite H. cbn [andb].
-    destruct (aget_cases l) as [|c0 cs]; [reflexivity|]. cbn [is_nil orb].
-    destruct (next_by_from [] [(T_Keyword, Some [s_END])] TNone 0 l) as [[eidx et]|]; cbn [rspec].
-    + reflexivity.
-    + split; [reflexivity | left; reflexivity].
+  - rewrite H.
+    destruct (aget_cases l) as [|c0 cs]; [reflexivity|].
+    destruct (next_by_from [] [(T_Keyword, Some [s_END])] TNone 0 l) as [[eidx et]|]; reflexivity.
   - destruct H as [-> Hx]. split; [reflexivity | exact Hx].
 Qed.
 
